@@ -235,6 +235,9 @@ func init() {
 	}))
 	synthLib = r.NewLibrary("@样品库")
 	synthLib.RegisterClass("样品", synthClass)
+	// the repository's own library types (stdlib/http, which exports them, does not build here)
+	synthLib.RegisterClass("HTTP响应", common.CLASS_HttpResponse)
+	synthLib.RegisterClass("HTTP请求", common.CLASS_HttpRequest)
 	synthLib.RegisterFunction("取常数", value.NewFunction(func(recv r.Element, params []r.Element) (r.Element, error) {
 		return value.NewNumber(42), nil
 	}))
